@@ -1,5 +1,6 @@
 import Deltio.Lemmas.SubRun
 import Deltio.Lemmas.SysSub
+import Deltio.Lemmas.SubsOk
 /-
   C02 — Acknowledgement is final and affects only that delivery.
   All theorems are about arbitrary sequences of turns of one subscription actor, i.e. about every
@@ -135,5 +136,13 @@ example :
     let s3 := (s2.rpc (.pull exS2 10 true)).1
     let s4 := (s3.rpc (.ack exS1 [[49]])).1
     (s4.stateOf 2).map (fun st => st.out.len) = some 0 ∧ (s4.stateOf 3).map (fun st => st.out.len) = some 1 := by decide
+
+/-- C02 (system level, all histories): after ANY sequence of requests, stream operations and time
+    advances, the two structures of every registered subscription's outstanding-message tracker
+    agree (the invariant behind the `unwrap_unchecked`s of `take_expired`), so an acknowledged
+    delivery is gone from both and can never be taken by an expiry again. -/
+theorem C02_system_tracker_consistent (ops : List SysOp) :
+    ∀ e ∈ (Sys.init.execOps ops).subs, e.st.out.Inv ∧ e.st.deleted = false :=
+  fun e he => ⟨(SubsOk_all ops e he).1.out, (SubsOk_all ops e he).2⟩
 
 end Deltio
